@@ -9,7 +9,7 @@ ob = [o for o in mod.obligations(tier) if re.search(rx, o.oid)][0]
 ob.timeout = float(os.environ.get("PROF_TIMEOUT", ob.timeout)); print(ob.oid)
 from vkit import runner
 class Conn:
-    def send(self, r): print({k: v for k, v in r.items() if k != 'messages'})
+    def send(self, r): print(r)
     def close(self): pass
 pr = cProfile.Profile()
 pr.enable()
